@@ -120,8 +120,9 @@ type c09Env struct {
 	bcast          *farm.Endpoint
 	udp            *farm.Endpoint
 	tcp            *farm.Endpoint
-	closed         int      // a port nobody listens on
-	plan           sync.Map // serial -> behaviour name
+	tcp2           *farm.Endpoint // a second TCP controller (two TCP calls in a row from one fixed bind port need two different peers)
+	closed         int            // a port nobody listens on
+	plan           sync.Map       // serial -> behaviour name
 	floodS         time.Duration
 	timing         sync.Map                                         // serial -> *c09Timing (measured by the farm)
 	cfgHook        func(b behaviour, serial uint32, cfg *ClientCfg) // netns mode: network specific configuration
@@ -176,6 +177,9 @@ func newC09Env(c *Ctx, T time.Duration) *c09Env {
 		return nil
 	}
 	if e.tcp, err = e.fm.AddTCP("127.0.0.1", 0); err != nil {
+		return nil
+	}
+	if e.tcp2, err = e.fm.AddTCP("127.0.0.1", 0); err != nil {
 		return nil
 	}
 	e.closed = freePort("127.0.0.1")
@@ -297,6 +301,8 @@ func (e *c09Env) run(b behaviour, serial uint32, bind string) c09Result {
 		cfg.Broadcast = "203.0.113.255:60000"
 	case b.path == "udp":
 		cfg.Devices = []DevCfg{{ID: serial, Addr: e.udp.Addr, Proto: "udp"}}
+	case b.name == "prompt-tcp2" && e.tcp2 != nil:
+		cfg.Devices = []DevCfg{{ID: serial, Addr: e.tcp2.Addr, Proto: "tcp"}}
 	case b.path == "tcp":
 		cfg.Devices = []DevCfg{{ID: serial, Addr: e.tcp.Addr, Proto: "tcp"}}
 	}
@@ -305,7 +311,7 @@ func (e *c09Env) run(b behaviour, serial uint32, bind string) c09Result {
 	}
 	u := mkClient(cfg)
 	name := b.name
-	if name == "set-address" || name == "discovery" {
+	if name == "set-address" || name == "discovery" || name == "prompt-tcp2" {
 		name = "prompt"
 	}
 	e.plan.Store(serial, name)
@@ -635,6 +641,36 @@ func c09(c *Ctx) {
 		s, g, sd, gd := settle(2*time.Second, 0, 0, bindHex, listenHex)
 		if s > 0 || g > 0 {
 			c.Res.Violate("C09:leak:port-queue", fmt.Sprintf("after the fixed-port rounds %d library sockets and %d library goroutines remain", s, g), map[string]any{"sockets": sd, "goroutine": truncateStr(gd, 1500)}, caseNo)
+		}
+	}
+
+	// ---- phase 2b: two TCP calls in a row from one fixed bind port (to two different controllers: the kernel refuses to reuse a
+	// 4-tuple that is in TIME_WAIT, whatever the library does): the second must not be refused its own bind port
+	if !only2 {
+		for round := 0; round < c.N(3, 12); round++ {
+			port := freePort(bindIP)
+			if port == 0 {
+				continue
+			}
+			bind := fmt.Sprintf("%s:%d", bindIP, port)
+			first := e.run(behaviour{"prompt", "tcp", "success", 0, false}, next(), bind)
+			second := e.run(behaviour{"prompt-tcp2", "tcp", "success", 0, false}, next(), bind)
+			if strings.Contains(first.err, "address already in use") {
+				c.Res.Inconcl("bind collision on a fixed port: " + first.err)
+				continue
+			}
+			first.fixed, second.fixed = true, true
+			caseNo++
+			e.judge(first, caseNo, "tcp-twice-on-a-fixed-port", 0)
+			caseNo++
+			c.Res.Count("tcp-twice-on-a-fixed-port", 1)
+			if first.err == "" && strings.Contains(second.err, "address already in use") {
+				c.Res.Eval(1)
+				c.Res.Violate("C09:tcp:fixed-port:second-call-cannot-bind", fmt.Sprintf("a TCP call from the fixed bind port %d right after another TCP call from it (to a different controller) failed after %v without asking its controller: %s", port, second.elapsed, second.err),
+					map[string]any{"bind": bind, "first_err": first.err, "second_err": second.err, "elapsed_ms": second.elapsed.Milliseconds()}, caseNo)
+				continue
+			}
+			e.judge(second, caseNo, "tcp-twice-on-a-fixed-port", 0)
 		}
 	}
 
